@@ -247,7 +247,8 @@ def main(argv):
                       'instruction payloads, jump conditions\' operands and difficulty masks are opaque identifiers (interned text)'],
         assumptions=['the meaning of a partially structured program is its flattening (positions counted in instructions, times as assigned by the time pass in text order); equality of canonical streams = same instructions, times, difficulty masks, jump targets (position, time) and explicit time arguments',
                      'labels of a function body are pairwise distinct (well_labelled); loop ids are unique and lexical (checked on the implementation\'s output by the harness)',
-                     'cond chains that negate a count jump (`--x > 0`) are excluded from C07_full: that is the recorded finding c07-count-jump-negation (C07_count_jump_negation_refuted)'])
+                     'instruction payloads are opaque: "executes identically from every initial state" is obtained through identical canonical streams (which compile to identical bytes), not through a register-level semantics; AstVm is run on both programs as an additional oracle',
+                     'the finding c07-count-jump-negation (fixed in truth 9533770) is tracked by the generated flag g_if_cnt: with the guard absent the unconditional theorem does not build and C07_count_jump_negation_refuted applies'])
 
 def diagnose(v, host, body, seed, hashed=None):
     """re-run one program with all six programs as terms and ask the model which comparisons fail"""
